@@ -183,7 +183,12 @@ func setupHost(dir string) error {
 		{host, "tag", "-a", "v1.0", "-m", "release 1.0"},
 		{host, "tag", "light"},
 		{host, "remote", "add", "origin", remote},
-		{host, "push", "-q", "-u", "origin", "main", "feature", "v1.0"},
+		// ordinary branches and a tag whose names merely START like git-bug's namespaces: a prefix
+		// match on "refs/remotes/origin/bugs" or "refs/identities" must not catch them
+		{host, "branch", "bugs-triage"},
+		{host, "branch", "identities-cleanup"},
+		{host, "tag", "bugs-v1"},
+		{host, "push", "-q", "-u", "origin", "main", "feature", "bugs-triage", "identities-cleanup", "v1.0", "bugs-v1"},
 		// local work the remote does not have: a commit on main and a branch that was never pushed
 		{host, "commit", "-q", "--allow-empty", "-m", "local work, not pushed"},
 		{host, "branch", "wip"},
